@@ -801,6 +801,32 @@ def call(f, *args, **kwargs):
     return f(*args, **kwargs)
 
 
+def fstr(*pieces):
+    out, symbolic = [], False
+    for p in pieces:
+        if type(p) is str:
+            out.append(p)
+            continue
+        value, conv, spec = p
+        if type(value) is SymStr and conv in (-1, 115) and not spec:
+            out.append(value)
+            symbolic = True
+            continue
+        if conv == 114:
+            value = repr(value)
+        elif conv == 115:
+            value = str(value) if not is_sym(value) else _m_str(value)
+        elif conv == 97:
+            value = ascii(value)
+        out.append(format(value, spec))
+    if not symbolic:
+        return "".join(out)
+    items = []
+    for p in out:
+        items.extend(SymStr.of(p).items)
+    return SymStr.mk(items)
+
+
 def ifexp(c, fa, fb):
     """`a if c else b` with a symbolic condition: an if-then-else term when both arms are values that can be merged, a fork otherwise."""
     tc = type(c)
@@ -859,7 +885,7 @@ class Rewriter(ast.NodeTransformer):
     def visit_Call(self, node):
         self.generic_visit(node)
         # super() must stay a direct call (zero-arg form needs __class__ cell)
-        if isinstance(node.func, ast.Name) and node.func.id in ("super", "__sx_getitem__", "__sx_call__", "__sx_contains__", "__sx_ifexp__", "locals", "globals", "vars"):
+        if isinstance(node.func, ast.Name) and node.func.id in ("super", "__sx_getitem__", "__sx_call__", "__sx_contains__", "__sx_ifexp__", "__sx_fstr__", "locals", "globals", "vars"):
             return node
         return ast.copy_location(ast.Call(self._name("__sx_call__"), [node.func, *node.args], node.keywords), node)
 
@@ -871,6 +897,20 @@ class Rewriter(ast.NodeTransformer):
                 c = ast.Call(self._name("__sx_not__"), [c], [])
             return ast.copy_location(c, node)
         return node
+
+    def visit_JoinedStr(self, node):
+        """f-strings: a symbolic text value interpolated without a format spec must stay symbolic text (not its placeholder repr)."""
+        self.generic_visit(node)
+        if not any(isinstance(v, ast.FormattedValue) for v in node.values):
+            return node
+        pieces = []
+        for v in node.values:
+            if isinstance(v, ast.Constant):
+                pieces.append(v)
+            else:
+                spec = v.format_spec if v.format_spec is not None else ast.Constant("")
+                pieces.append(ast.Tuple([v.value, ast.Constant(v.conversion), spec], ast.Load()))
+        return ast.copy_location(ast.Call(self._name("__sx_fstr__"), pieces, []), node)
 
     def visit_IfExp(self, node):
         self.generic_visit(node)
@@ -919,6 +959,7 @@ class _Loader(importlib.machinery.SourceFileLoader):
         module.__dict__["__sx_not__"] = snot
         module.__dict__["__sx_enter__"] = enter
         module.__dict__["__sx_ifexp__"] = ifexp
+        module.__dict__["__sx_fstr__"] = fstr
         super().exec_module(module)
 
 
